@@ -124,7 +124,39 @@ notes.update({
  'C19d':"HookThenServe clamps the deadline a before-hook set to the request's: a hook that extends the deadline is undone for everything behind the wrapper",
  'C20d':"consistent hash takes the index from the hash's high bits for power-of-two backend counts: with exactly one backend the shift is by 64 (panic)",
 })
+notes.update({
+ 'C01e':"in-flight table remembers the last inserted id and drops replies for larger ids as 'never sent': requests reach the dispatch out of id order when two callers that waited for buffer room hand over in reverse (needs 4 callers, buffer 2); the dropped reply is the call's own",
+ 'C02e':"deadline timers polled only after the flush completed: while a flush is pending nobody is registered with the timer, an expiring call is not woken",
+ 'C03e':"the cancellation queue becomes bounded by max_in_flight_requests with try_send: more abandonments than that between two dispatch polls lose the transmitted call's Cancel",
+ 'C04e':"server: a Cancel for an unknown id returns Pending from poll_next with no wake-up arranged: everything behind it stays unread",
+ 'C05e':"an error reply whose kind is TimedOut is turned into DeadlineExceeded: a call fails with the deadline error long before its deadline",
+ 'C06e':"decoder treats a wire deadline of exactly zero like an overflow: a request that has expired on arrival over a serializing hop gets a deadline 136 years away and is never aborted",
+ 'C07e':"time_until saturates at two years and the serializer uses it: deadlines further away are shortened at every serializing hop",
+ 'C08e':"BaseChannel's sink transmits every response handed to it, tracked or not: on the requests()/execute() routes a response still buffered when its request is cancelled goes out",
+ 'C09e':"a failed write of a Cancel is treated like a failed request write (only that 'call' fails, which no longer exists): the transport error is lost",
+ 'C10e':"run() loops again when a reply was read in the iteration that closed the write half: poll_ready / a second poll_close on a closed sink",
+ 'C11e':"cancellation queue bounded to 1024 with try_send: more than 1024 abandonments between two polls of the reclaiming task leave entries and timers behind",
+ 'C12e':"BaseChannel::poll_next drains its queue of application-side cancellations after the transport read: a slot given back by an abandoned handler is not counted when the next request is read - refused below the limit",
+ 'C13e':"match arm order: an admitted arrival is thrown away when a close notification is ready in the same iteration",
+ 'C14e':"same dirty-flag idea as C12d, found independently: throttle replies bypass the flag and stay unflushed",
+ 'C15e':"serde transport reports end-of-stream on its READ side once its own sink was closed: after a half-close the other end's messages are lost",
+ 'C16e':"client: after a reply that matches no call, run() returns Pending although the transport had items and registered no waker: valid replies behind it are not read",
+ 'C17e':"macro adds serde aliases with the method's own name: `GetItem` (variant Getitem, alias GetItem) shadows `get_item` (variant GetItem) under JSON when declared first - the wrong implementor method runs",
+ 'C18e':"span -> context conversion treats 'span enabled' as 'span has OpenTelemetry data': under a plain fmt subscriber contexts become all-zero",
+ 'C19e':"after-hook skipped when the context's deadline (possibly shortened by an outer before-hook) has lapsed",
+ 'C20e':"retry policy consulted a second time inside a trace! field: only when the callsite is enabled (TRACE subscriber)",
+})
 strength={
+ 'C01e':"judged a C05 violation (the reply is the call's own and is not delivered) rather than C01: 4 callers over a buffer of 2 added to C05",
+ 'C05e':"error replies now carry kind TimedOut for even ids; C05 configurations answered with an error",
+ 'C06e':"requests delivered through a serializing hop (bincode round trip at delivery) in C06, judged against the deadline the peer meant",
+ 'C07e':"remaining durations beyond two years (1100 days, 109 years) in the C07 grid: the propagated deadline is not subject to the timers' cap",
+ 'C11e':"new part of C11: bursts of n in {1..2049} (thorough ..10000) calls / requests abandoned between two polls, on both ends",
+ 'C12e':"application-side handler drops in C12's alphabet; a request given up before the reading poll began no longer counts as in flight",
+ 'C15e':"socket grid: one end closes its writing side, the other keeps writing, then drops",
+ 'C16e':"the C16 client driver polls tasks only when woken",
+ 'C17e':"every grid definition also runs over the JSON and bincode transports; twin-name collision candidates (GetItem / get_item in both orders); a mass of compile failures is machinery, not 'rejected definitions'",
+ 'C20e':"C20's grids run a second time with all tracing callsites enabled; so does every DFS harness (bounds 0-1)",
  'C01d':"handle topologies Root / Middle / Grand (the original, a clone that has been cloned, the grandchild)",
  'C03d':"transient Send/Ready/Flush faults in C03's configurations",
  'C04d':"chains whose clients have max_in_flight_requests = 1",
